@@ -53,9 +53,11 @@ TYPE_ANY_ = 'ref:Type|ref:TemplatedType'
 contract('instantiate_type',
          params={'ctype': TYPE_ANY_, 'template_typenames': 'list[str]', 'instantiations': 'list[ref:Typename]',
                  'cpp_typename': 'ref:Typename', 'instantiated_class': 'ref:InstantiatedClass|none'},
-         returns=TYPE_ANY_, modifies=['alloc'], assumed=True,
-         note='type-level contract: returns a Type, changes no existing object (deep copy first); the substitution itself is '
-              'checked by the bounded reference oracle of C02')
+         returns=TYPE_ANY_, modifies=['alloc'],
+         loops={k: {'inv': [], 'modifies': ['new:name', 'new:namespaces', 'new:instantiations', 'new:template_params', 'new:typename', 'new:SEQ']}
+                for k in range(4)},
+         note='frame contract: returns a Type and changes no object that existed before (it works on a deep copy); the '
+              'substitution itself is checked by the bounded reference oracle of C02')
 contract('instantiate_args_list',
          params={'args_list': 'list[ref:Argument]', 'template_typenames': 'list[str]', 'instantiations': 'list[ref:Typename]',
                  'cpp_typename': 'ref:Typename'},
@@ -78,3 +80,10 @@ contract('Enum.cpp_typename', returns='ref:Typename', modifies=['alloc'],
          ensures=['is_fresh(result)', 'result.name == old(self.name)', 'result.namespaces == old(ns_chain(self.parent))',
                   'len(result.instantiations) == 0'])
 contract('Namespace.top_level', returns='ref:Namespace', result_is='ns_root(self)')
+contract('is_scoped_template', params={'template_typenames': 'list[str]', 'str_arg_typename': 'str'}, returns='tuple[bool|str,int]',
+         ensures=['result[1] == -1 or (0 <= result[1] and result[1] < len(template_typenames))',
+                  # a scoped use names the template by its first component
+                  "implies(result[1] >= 0, same(result[0], template_typenames[result[1]]) and '::' in str_arg_typename "
+                  "and str_arg_typename.split('::')[0] == template_typenames[result[1]])",
+                  'implies(result[1] == -1, same(result[0], False))'],
+         loops={0: {'inv': []}})
